@@ -17,7 +17,7 @@ func init() {
 	core.Register(&core.Prop{
 		ID:    "C20",
 		Level: "fault_enumeration",
-		Rule: "for every generated template (all standard tags incl. tablerow, cycle, include from the cache, capture, nested loops, raw/comment, every trim-marker position, a harness-registered tag and block, and application tags/blocks calling ExpandTagArg, InnerString, RenderChildren, RenderFile, EvaluateString, Set/Get): one fault-free FRender with a counting writer gives W Write calls and output O; then for EVERY k in 0..W-1 and four fault shapes (accept nothing; accept half; accept all but the last byte; fail once then accept again) the render is repeated with the injecting writer through FRender or ParseAndFRender. Non-trivial = a (template, k, shape) whose fault was actually reached; distinct = distinct (template source, k, shape).",
+		Rule: "for every generated template (all standard tags incl. tablerow, cycle, include from the cache, capture, nested loops, raw/comment, every trim-marker position, a harness-registered tag and block, and application tags/blocks calling ExpandTagArg, InnerString, RenderChildren, RenderFile, EvaluateString, Set/Get): one fault-free FRender with a counting writer gives W Write calls and output O; then for EVERY k in 0..W-1 and five fault shapes (accept nothing; accept half; accept all but the last byte; fail once then accept again; accept half, fail, then accept again) the render is repeated with the injecting writer through FRender or ParseAndFRender. Non-trivial = a (template, k, shape) whose fault was actually reached; distinct = distinct (template source, k, shape).",
 		Exhaustive: func(string) bool { return true },
 		Assumptions: []string{
 			"the injected error is a unique sentinel; 'carrying that failure' means: reachable through the Cause()/Unwrap() chain of the returned SourceError",
@@ -30,7 +30,7 @@ func init() {
 
 type faultWriter struct {
 	failAt  int
-	shape   int // 0 nothing, 1 half, 2 nothing but later writes succeed, 3 all but the last byte
+	shape   int // 0 nothing, 1 half, 2 nothing but later writes succeed, 3 all but the last byte, 4 half and later writes succeed
 	calls   int
 	failed  bool
 	after   int
@@ -42,7 +42,7 @@ type faultWriter struct {
 func (w *faultWriter) Write(p []byte) (int, error) {
 	if w.failed {
 		w.after++
-		if w.shape == 2 {
+		if w.shape == 2 || w.shape == 4 {
 			w.acc.Write(p)
 			return len(p), nil
 		}
@@ -50,7 +50,7 @@ func (w *faultWriter) Write(p []byte) (int, error) {
 	}
 	if w.calls == w.failAt {
 		w.failed = true
-		if w.shape == 1 || w.shape == 3 {
+		if w.shape == 1 || w.shape == 3 || w.shape == 4 {
 			n := len(p) / 2
 			if w.shape == 3 && len(p) > 0 { // accept everything but the last byte
 				n = len(p) - 1
@@ -119,6 +119,10 @@ func c20Engine() *liquid.Engine {
 }
 
 var c20Fixed = []string{
+	// loops in which an earlier iteration was cut short by continue (or an inner loop left by break) before the failing write
+	"{% for i in (1..4) %}{% if i == 1 %}{% continue %}{% endif %}<{{ i }}>{% endfor %}", "{% for i in (1..3) %}{% for j in (1..2) %}{% if j == 1 %}{% continue %}{% endif %}{{ i }}{{ j }};{% endfor %}|{% endfor %}end",
+	"{% tablerow i in (1..4) cols: 2 %}{% if i == 2 %}{% continue %}{% endif %}{{ i }}{% endtablerow %}", "{% for i in (1..3) %}{% for j in (1..3) %}{% if j == 2 %}{% break %}{% endif %}{{ j }}{% endfor %}<{{ i }}>{% endfor %}",
+	"{% for i in (1..3) %}{% if i == 2 %}{% continue %}{% endif %}{% endfor %}after the loop {{ n }}", "{% for i in (1..2) %}{% xwrap w %}{% continue %}{% endxwrap %}{% endfor %}{% for i in (1..2) %}[{{ i }}]{% endfor %}",
 	"", "text only", "{{ s }}", "a{{ s }}b{{ n }}c", "{{- s -}} x {{- n -}}", "  {%- if t -%} yes {%- endif -%}  ",
 	"{% tablerow i in arr cols:2 %}{{ i }}{% endtablerow %}", "{% tablerow i in (1..5) %} {{- i -}} {% endtablerow %}tail",
 	"{% for i in (1..3) %}{% cycle 'a','b' %}{% endfor %}", "{% raw %}{{ raw }}{% endraw %}", "x {%- raw -%} r {%- endraw -%} y",
@@ -205,7 +209,7 @@ func runC20(c *core.Ctx) {
 			c.Sample(map[string]any{"source": src, "write_calls": W, "output": core.Trunc(O, 120)})
 		}
 		for k := 0; k <= W; k++ {
-			for shape := 0; shape < 4; shape++ {
+			for shape := 0; shape < 5; shape++ {
 				fw := &faultWriter{failAt: k, shape: shape, err: sentinel}
 				var res core.Res
 				entry := "FRender"
@@ -221,7 +225,7 @@ func runC20(c *core.Ctx) {
 				c.Eval(1)
 				wit := func() map[string]any {
 					return map[string]any{"source": src, "bindings": env.String(), "entry": entry, "fail_at_write": k, "of_writes": W,
-						"shape": []string{"accept nothing", "accept half", "fail once then accept", "accept all but the last byte"}[shape], "observed": res.Brief(),
+						"shape": []string{"accept nothing", "accept half", "fail once then accept", "accept all but the last byte", "accept half, fail, then accept again"}[shape], "observed": res.Brief(),
 						"accepted": core.Trunc(fw.acc.String(), 200), "fault_free_output": core.Trunc(O, 200)}
 				}
 				if k == W {
@@ -254,7 +258,7 @@ func runC20(c *core.Ctx) {
 				if !strings.HasPrefix(O, fw.acc.String()) {
 					c.Violate("accepted-not-prefix|shape"+fmt.Sprint(shape), "bytes accepted by the writer are not a prefix of the fault-free output (rendering went on after the failure, or wrote something else)", wit())
 				}
-				if shape != 2 && fw.after > 0 {
+				if shape != 2 && shape != 4 && fw.after > 0 {
 					c.Obs("writes_attempted_after_failure", int64(fw.after))
 				}
 			}
